@@ -488,11 +488,15 @@ def run(ctx):
         variants = [None]
         for variant in variants:
             n += 1
-            analyse_shape(ctx, repo, raw, dname, fb, fam_count, variant)
+            # one shape the interpreter cannot follow does not hide the verdicts of the other shapes and rules (the run still ends in
+            # exit 2 unless one of them finds a violation)
+            with ctx.guard(f"shape {dname} {raw[:12].hex()}"):
+                analyse_shape(ctx, repo, raw, dname, fb, fam_count, variant)
     for variant in ("option3", "option0"):
         for shp, (fname, raw, dname) in sorted(shapes.items(), key=lambda kv: repr(kv[0])):
             if dname == "HDAP" and shp[1][0] == "TextMessageProtocol":
-                analyse_shape(ctx, repo, raw, dname, decoders[dname][1], fam_count, variant)
+                with ctx.guard(f"shape {dname} {raw[:12].hex()} {variant}"):
+                    analyse_shape(ctx, repo, raw, dname, decoders[dname][1], fam_count, variant)
                 break
     for fam, need in MIN_SHAPES.items():
         ctx.coverage("shape/coverage", fam, fam_count.get(fam, 0), need, f"{fam_count.get(fam, 0)} shapes analysed, {need} confirmed by hand", "")
